@@ -29,20 +29,19 @@ def post(ctx, d):
 
 
 def run(ctx):
-    with ttllib.use_memx("handle"):
-        return memlib.run_family(
-            ctx, PID, make_cases,
-            rule="database counts 1, 2, 16; every database holds a marker key with its own index so GET reveals the real selection; "
-                 "(a) isolation: string/list key with deadline written in database i by one connection, probed (GET/EXISTS/TYPE/TTL/KEYS/"
-                 "LLEN/DEL) from every database by a second connection and from a never-selecting third; (b) validation: every invalid "
-                 "argument (-1, n, n+1, 1.0, empty, huge, 2^32, 2^63, 2^64, non-numeric, spaces, hex, exponent, underscore, NUL, CRLF, "
-                 "full-width digit, bare sign), the borderline forms Go accepts (00, 01, +1, +0, -0), arities 0/2/3, each followed by "
-                 "GET whoami on the issuing and on another connection; (c) seeded random interleavings of 1-5 connections mixing SELECT "
-                 "(valid/invalid/borderline) with string/list/key commands and sleeps, dumps of all databases; thorough: (d) the same over "
-                 "real TCP connections against server.Start",
-            extra_tb=["connections: mode handle drives server.Manager.Handle over net.Pipe (per-connection state is whatever Handle "
-                      "keeps); the accept loop of server.Start is exercised only by the TCP sample (thorough)"],
-            extra_cov=dict(db_counts=gen_sel.DBCOUNTS, invalid_args=len(gen_sel.INVALID_ARGS), borderline_args=len(gen_sel.BORDERLINE_ARGS),
-                           correspondence="server.Manager.Handle over net.Pipe, one per connection id (REPO working tree, -tags verif,faketime) "
-                                          "vs extracted srv_exec: every reply and every keyspace dump of every database compared"),
-            post=post)
+    return memlib.run_family(
+        ctx, PID, make_cases, runner=ttllib.memx_runner("handle"),
+        rule="database counts 1, 2, 16; every database holds a marker key with its own index so GET reveals the real selection; "
+             "(a) isolation: string/list key with deadline written in database i by one connection, probed (GET/EXISTS/TYPE/TTL/KEYS/"
+             "LLEN/DEL) from every database by a second connection and from a never-selecting third; (b) validation: every invalid "
+             "argument (-1, n, n+1, 1.0, empty, huge, 2^32, 2^63, 2^64, non-numeric, spaces, hex, exponent, underscore, NUL, CRLF, "
+             "full-width digit, bare sign), the borderline forms Go accepts (00, 01, +1, +0, -0), arities 0/2/3, each followed by "
+             "GET whoami on the issuing and on another connection; (c) seeded random interleavings of 1-5 connections mixing SELECT "
+             "(valid/invalid/borderline) with string/list/key commands and sleeps, dumps of all databases; thorough: (d) the same over "
+             "real TCP connections against server.Start",
+        extra_tb=["connections: mode handle drives server.Manager.Handle over net.Pipe (per-connection state is whatever Handle "
+                  "keeps); the accept loop of server.Start is exercised only by the TCP sample (thorough)"],
+        extra_cov=dict(db_counts=gen_sel.DBCOUNTS, invalid_args=len(gen_sel.INVALID_ARGS), borderline_args=len(gen_sel.BORDERLINE_ARGS),
+                       correspondence="server.Manager.Handle over net.Pipe, one per connection id (REPO working tree, -tags verif,faketime) "
+                                      "vs extracted srv_exec: every reply and every keyspace dump of every database compared"),
+        post=post)
